@@ -8,7 +8,15 @@ Record.create_candidate_clusters / create_regions):
    objects for all n! orders) must give the same protoclusters and definition domains;
  * sub-selection / sanctioned cross-rule effect: the protoclusters of the full ruleset must be the protoclusters of each
    rule run alone, minus those covered by a cluster of a superior rule - computed by the Coq transcription of
-   remove_redundant_protoclusters, which C07_redundancy_spec proves equal to the order-free specification."""
+   remove_redundant_protoclusters, which C07_redundancy_spec proves equal to the order-free specification;
+ * rotation through spliced genes: multi-exon core genes on both strands, the new origin inside an exon (one side of
+   the origin then holds two or more parts of the gene);
+ * histories of hmm_detection.get_ruleset(): sequences of different selections (names, categories, strictness, taxon,
+   multipliers) in one process; after EVERY call every ruleset handed out so far must hold the selected rules with
+   distances = written distance * its own multipliers (independent oracle from a fresh parse of the rule files) and
+   must equal the Coq model of get_ruleset / Ruleset / create_rules with its object store (C07_get_ruleset_history_
+   independent); detection with a sub-selected ruleset = each selected rule run alone minus the Coq removal."""
+import contextlib
 import itertools
 
 import common
@@ -134,6 +142,54 @@ def rotate_genes(genes, length, k):
     return out
 
 
+def gen_spliced_record(rng):
+    """ circular record with spliced genes (1-4 exons) on both strands in the first third; hits are dense so that the
+        spliced genes are core genes.  genes: (name, [(start, end), ...] ascending, strand) """
+    n_genes = rng.choice([3, 4, 5, 6])
+    cutoff = rng.choice([1, 2, 5]) * 1000
+    genes = []
+    pos = rng.choice([0, 100, 1500, 4000])
+    for i in range(n_genes):
+        parts = []
+        for _ in range(rng.choice([1, 2, 3, 3, 4])):
+            size = rng.choice([90, 300, 600, 900])
+            parts.append((pos, pos + size))
+            pos += size + rng.choice([30, 100, 400])
+        pos = parts[-1][1] + rng.choice([1, 50, cutoff - 1, cutoff, cutoff + 1, cutoff + 700])
+        genes.append((f"g{i}", parts, rng.choice([1, -1])))
+    length = genes[-1][1][-1][1] * rng.choice([3, 4, 6]) + rng.choice([0, 1, 999]) + 30000
+    nb = rng.choice([0, 1, 3])
+    first = rng.choice(["a", "a or b", "a and b", "cds(a and b)", "a and not c", "minimum(2, [a, b, c])"])
+    rules = [f"RULE r0 CATEGORY c CUTOFF {cutoff // 1000} NEIGHBOURHOOD {nb} CONDITIONS {first}"]
+    if rng.random() < 0.5:
+        rules.append(f"RULE r1 CATEGORY c CUTOFF {rng.choice([1, 2, 5])} NEIGHBOURHOOD {rng.choice([0, 1, 3])} "
+                     f"CONDITIONS {rng.choice(['b', 'c', 'b or c'])}")
+    hits = {}
+    for name, _, _ in genes:
+        profs = {p for p in "abc" if rng.random() < 0.55}
+        if profs:
+            hits[name] = profs
+    return length, genes, rules, hits
+
+
+def rotate_spliced(genes, length, k):
+    """ the genes after moving the origin by k: every exon moves, an exon that now contains the origin is split in two;
+        parts in the order a GenBank file lists them (5' to 3': descending for the reverse strand) """
+    out = []
+    for name, parts, strand in genes:
+        new = []
+        for s, e in parts:
+            ns, ne = (s + k) % length, (e - 1 + k) % length + 1
+            if ns < ne:
+                new.append((ns, ne, strand))
+            else:
+                new += [(ns, length, strand), (0, ne, strand)]
+        if strand == -1:
+            new.reverse()
+        out.append((name, new))
+    return out
+
+
 # ------------------------------------------------------------------ running the implementation
 
 def parse_rules(rules, profiles):
@@ -157,10 +213,36 @@ def names_within(record, location):
     return tuple(sorted(cds.get_name() for cds in record.get_cds_features_within_location(location)))
 
 
+def gene_locations(genes):
+    """ genes: (name, start, end, strand) or (name, [(start, end, strand), ...] in the order of the location's parts) """
+    return [(g[0], [(g[1], g[2], g[3])]) if len(g) == 4 else (g[0], list(g[1])) for g in genes]
+
+
+@contextlib.contextmanager
+def specified_gene_lookup():
+    """ replaces Record.get_cds_features_within_location by its specification (a full scan: the genes contained in
+        the location, or overlapping it when asked for).  Only used to ATTRIBUTE a rotation difference to the recorded
+        classes F13a nested_genes / F13b origin_spanning_gene of that function (C08) """
+    from antismash.common.secmet import Record
+    from antismash.common.secmet.locations import FeatureLocation
+    original = Record.get_cds_features_within_location
+
+    def lookup(self, location, with_overlapping=False):
+        if len(location.parts) == 1 and location.start < 0:
+            location = FeatureLocation(0, max(1, location.end))
+        return [cds for cds in self._cds_features  # pylint: disable=protected-access
+                if cds.is_contained_by(location) or (with_overlapping and cds.overlaps_with(location))]
+    Record.get_cds_features_within_location = lookup
+    try:
+        yield
+    finally:
+        Record.get_cds_features_within_location = original
+
+
 def run_pipeline(length, genes, rules, hits, circular=True, profiles=PROFILES, objects=None, areas=False):
     """ rules: rule text lines (parsed here), or objects: parsed rules in the order to use.
         -> protoclusters, definition domains [, candidate clusters, regions] """
-    record = detect_util.make_record(length, circular, [(n, [(s, e, st)]) for n, s, e, st in genes])
+    record = detect_util.make_record(length, circular, gene_locations(genes))
     if objects is None:
         ruleset = detect_util.make_ruleset("\n".join(rules), list(profiles), hits)
     else:
@@ -211,7 +293,17 @@ RULE = ("(A) rule order: linear and circular records, 2-8 genes with gaps around
         "1-3 rules from 9 condition shapes incl. and/or/not/cds/minimum, no SUPERIORS), up to 6 rotations that cut no gene "
         "(incl. ones that make a protocluster, candidate or region span the new origin): protoclusters, candidate clusters "
         "(kind, products, members) and regions (products, members, candidates) compared with the Coq-rotated base areas.  "
-        "Non-trivial = the base run reports at least one protocluster; distinct by (record, rotation | permutation)")
+        "(B2) rotation through spliced genes: circular records with 3-6 genes of 1-4 exons on both strands (dense hits, 1-2 rules), "
+        "up to 6 rotations with the new origin inside an exon of a spliced core gene (one side of the origin then holds >= 2 "
+        "parts), on an exon boundary or in an intron; a difference is attributed to the recorded C08 classes F13a/F13b only if "
+        "it disappears with the specified gene lookup.  (C) histories of 2-5 hmm_detection.get_ruleset() calls on the shipped "
+        "rule files (+ the unrestricted ruleset of one or two of them): strictness, 1-8 rule names, 1-2 categories, taxon, "
+        "default fungal multipliers or multipliers k/8 (a quarter of the histories: any float, oracle only), repeated / "
+        "permuted selections, rare invalid multipliers; after EVERY call all rulesets so far vs oracle (rule files read as "
+        "text) and vs the Coq model on every prefix; detection on a synthetic linear record with canned HMMer hits for 17 gene "
+        "types.  (D) 2-4 Ruleset.from_files / copy_with_replacements calls vs the model.  "
+        "Non-trivial = the base run reports at least one protocluster / the history has a non-unit fungal multiplier; "
+        "distinct by (record, rotation | permutation | history prefix)")
 
 
 # ------------------------------------------------------------------ rule order
@@ -296,6 +388,605 @@ def decode_kept(model, names):
     return out
 
 
+def areas_flat(length, k, base, cands, regions):
+    """ the flat case for the Coq rotation of every area of a run: cores and extents of the protoclusters, candidate
+        clusters, regions and the candidates listed by each region """
+    locs = []
+    for _, core, full in base:
+        locs += [core, full]
+    locs += [c[2] for c in cands] + [r[1] for r in regions]
+    for region in regions:
+        locs += list(region[3])
+    flat = [PROP, 1, length, k, len(locs)]
+    for loc in locs:
+        flat += enc_parts(loc)
+    return flat
+
+
+def rotation_case(chk, store, length, genes, rotated, rules, hits, k, base_run, nontrivial, spliced):
+    """ runs the pipeline on the rotated record and files the case for the comparison with the Coq-rotated base areas """
+    cases, impl_outs, meta = store
+    base, members, cands, regions = base_run
+    try:
+        out = run_pipeline(length, rotated, rules, hits, areas=True)
+        out = (out[0], out[2], out[3], out[4])
+    except Exception as exc:  # pylint: disable=broad-except
+        out = ("error", type(exc).__name__, str(exc))
+    flat = areas_flat(length, k, base, cands, regions)
+    cases.append(flat)
+    impl_outs.append(out)
+    meta.append({"length": length, "genes": genes, "hits": {g: sorted(v) for g, v in hits.items()}, "rules": rules,
+                 "rotation": k, "base": base, "base_members": members, "base_candidates": cands,
+                 "base_regions": regions})
+    if spliced:
+        meta[-1]["spliced"] = True
+    chk.count("rotations")
+    chk.note_case(flat, nontrivial, meta[-1] if len(chk.samples) < 4 or (spliced and len(chk.samples) < 6) else None)
+
+
+def attributable_to_gene_lookup(info):
+    """ a difference between the two frames of a record with spliced / origin-cut genes is attributed to the recorded
+        defects of Record.get_cds_features_within_location (C08: F13a nested_genes, F13b origin_spanning_gene) only
+        if (1) one of them is still listed as known, (2) with that one function replaced by its specification the
+        rotated run IS the Coq-rotated base run, and (3) the replacement changed the outcome of one of the two runs """
+    classes = {f["class"] for f in common.load_known_findings("C08") if f["status"] == "known"}
+    if not classes & {"nested_genes", "origin_spanning_gene"}:
+        return False
+    genes = [(n, [tuple(p) for p in parts], st) for n, parts, st in info["genes"]]
+    hits = {g: set(v) for g, v in info["hits"].items()}
+    length, k, rules = info["length"], info["rotation"], info["rules"]
+    try:
+        real_base = run_pipeline(length, rotate_spliced(genes, length, 0), rules, hits, areas=True)
+        with specified_gene_lookup():
+            base = run_pipeline(length, rotate_spliced(genes, length, 0), rules, hits, areas=True)
+            rotated = run_pipeline(length, rotate_spliced(genes, length, k), rules, hits, areas=True)
+    except Exception:  # pylint: disable=broad-except
+        return False
+    try:
+        real_rotated = run_pipeline(length, rotate_spliced(genes, length, k), rules, hits, areas=True)
+    except Exception:  # pylint: disable=broad-except
+        real_rotated = None
+    if base == real_base and rotated == real_rotated:
+        return False
+    model = common.run_driver([areas_flat(length, k, base[0], base[3], base[4])])[0]
+    expected = decode_expected(model, {"base": base[0], "base_members": base[2], "base_candidates": base[3],
+                                       "base_regions": base[4]})
+    return expected is not None and tuple(expected) == tuple(sorted(x) for x in (rotated[0], rotated[2], rotated[3], rotated[4]))
+
+
+# ------------------------------------------------------------------ (C) histories of hmm_detection.get_ruleset()
+
+STRICTNESS = ["strict", "relaxed", "loose"]
+# multipliers whose products with the distances are exact in floating point (so that int(d * m) is the truncated
+# rational product of the Coq model); 1.5 is the default fungal neighbourhood multiplier
+DYADIC = [0.125, 0.25, 0.5, 0.75, 1.0, 1.25, 1.5, 1.5, 2.0, 2.5, 3.0]
+# any other float: only compared with the independent oracle int(written distance * multiplier)
+FREE = [1.1, 0.7, 2.3, 1 / 3, 0.9, 1.7]
+# genes of the synthetic record: profile hits that make rules of the shipped rule files fire, among them rules with
+# SUPERIORS (terpene-precursor < terpene, NRPS-like < NRPS, HR-T2PKS < arylpolyene, RiPP-like < bottromycin, ...)
+HIT_POOL = [("T1TS",), ("PT_FPPS_like",), ("Condensation", "AMP-binding", "PP-binding"), ("AMP-binding", "PP-binding"),
+            ("PKS_AT", "PKS_KS"), ("APE_KS1",), ("hr-t2pks-ksa", "ketoacyl-synt"), ("botH",), ("strepbact",),
+            ("phosphonates-like",), ("Trp_halogenase",), ("DUF3328",), ("t2ks", "t2clf"), ("ksIII",), ("glycocin",),
+            ("micKC",), ("T1TS", "PT_FPPS_like"), ()]
+FIRING = ["terpene", "terpene-precursor", "NRPS", "NRPS-like", "T1PKS", "arylpolyene", "HR-T2PKS", "bottromycin",
+          "RiPP-like", "phosphonate-like", "halogenated", "fungal-RiPP-like", "T2PKS", "PKS-like", "glycocin",
+          "lanthipeptide-class-iii"]
+
+
+def read_rule_files(hd):
+    """ the rule files read as TEXT, independently of the parser: per file [(name, category, cutoff, neighbourhood)]
+        with the distances as written (kilobases * 1000) """
+    import re
+    files = []
+    for level in STRICTNESS:
+        path = hd._get_rule_files_for_strictness(level)[-1]  # pylint: disable=protected-access
+        rules = []
+        for line in open(path, encoding="utf-8"):
+            words = line.split("#")[0].split()
+            if not words:
+                continue
+            if words[0] == "RULE" and re.match(r"^RULE\s", line):
+                rules.append([words[1], None, None, None])
+            elif rules and words[0] == "CATEGORY" and rules[-1][1] is None:
+                rules[-1][1] = words[1]
+            elif rules and words[0] == "CUTOFF" and rules[-1][2] is None:
+                rules[-1][2] = int(words[1]) * 1000
+            elif rules and words[0] == "NEIGHBOURHOOD" and rules[-1][3] is None:
+                rules[-1][3] = int(words[1]) * 1000
+        files.append([tuple(r) for r in rules])
+    return files
+
+
+class RulesetEnv:
+    """ the shipped rule files as numbers for the Coq model, and the real get_ruleset """
+    def __init__(self):
+        from antismash.detection import hmm_detection
+        from antismash.common.hmm_rule_parser import cluster_prediction
+        from antismash.detection.hmm_detection.signatures import get_signature_profiles
+        self.hd = hmm_detection
+        self.cp = cluster_prediction
+        self.signatures = {sig.name for sig in get_signature_profiles()} | set(hmm_detection.DYNAMIC_PROFILES)
+        self.files = read_rule_files(hmm_detection)
+        self.names = [r[0] for rules in self.files for r in rules]
+        self.name_id = {name: i for i, name in enumerate(self.names)}
+        self.cats = sorted(hmm_detection.CATEGORIES)
+        self.cat_id = {cat: i for i, cat in enumerate(self.cats)}
+        parsed = self.fresh_parse()
+        self.parse_agrees = [(r.name, r.category, r.cutoff, r.neighbourhood) for r in parsed] == \
+                            [r for rules in self.files for r in rules]
+        self.superiors = {r.name: list(r.superiors) for r in parsed}
+        self.profiles = {r.name: set(r.conditions.profiles) for r in parsed}
+        self.pool = [p for p in HIT_POOL if all(x in self.signatures for x in p)]
+        self.firing = [n for n in FIRING if n in self.name_id]
+
+    def fresh_parse(self):
+        return self.cp.create_rules(self.hd._get_rule_files_for_strictness("loose"),  # pylint: disable=protected-access
+                                    self.signatures, self.hd.CATEGORIES)
+
+    def base_rules(self, strictness):
+        return [r for rules in self.files[:STRICTNESS.index(strictness) + 1] for r in rules]
+
+    def flat_files(self):
+        out = [len(self.files)]
+        for rules in self.files:
+            out.append(len(rules))
+            for name, cat, cutoff, nb in rules:
+                out += [self.name_id[name], self.cat_id[cat], cutoff, nb]
+        return out
+
+    def options(self, req):
+        from antismash.config import build_config, destroy_config
+        args = ["--hmmdetection-strictness", req["strictness"], "--taxon", req["taxon"]]
+        if req["names"]:
+            args += ["--hmmdetection-limit-to-rule-names", ",".join(req["names"])]
+        if req["cats"]:
+            args += ["--hmmdetection-limit-to-rule-categories", ",".join(req["cats"])]
+        if req["mults"] is not None:
+            args += ["--hmmdetection-fungal-cutoff-multiplier", repr(req["mults"][0]),
+                     "--hmmdetection-fungal-neighbourhood-multiplier", repr(req["mults"][1])]
+        destroy_config()
+        return build_config(args, isolated=True, modules=[self.hd])
+
+    def effective(self, req):
+        if req["taxon"] != "fungi":
+            return (1.0, 1.0)
+        return req["mults"] if req["mults"] is not None else (1.0, 1.5)
+
+    def flat_request(self, req, options):
+        """ the names / categories in the order of the tuples the cache key is built from """
+        names = tuple(set(options.hmmdetection_limit_to_rules))
+        cats = tuple(set(options.hmmdetection_limit_to_categories))
+        mults = req["mults"] if req["mults"] is not None else (1.0, 1.5)
+        out = [STRICTNESS.index(req["strictness"]), len(names)] + [self.name_id.get(n, 9000 + i) for i, n in enumerate(names)]
+        out += [len(cats)] + [self.cat_id.get(c, 9000 + i) for i, c in enumerate(cats)]
+        out.append(1 if req["taxon"] == "fungi" else 0)
+        for value in mults:
+            num, den = float(value).as_integer_ratio()
+            out += [num, den]
+        return out
+
+    def expected(self, req):
+        """ the independent oracle: the selected rules of the files with int(written distance * multiplier) """
+        cutoff, neighbourhood = self.effective(req)
+        out = []
+        for name, cat, written_cutoff, written_nb in self.base_rules(req["strictness"]):
+            if req["names"] and name not in req["names"]:
+                continue
+            if req["cats"] and cat not in req["cats"]:
+                continue
+            out.append((name, cat, int(written_cutoff * cutoff), int(written_nb * neighbourhood)))
+        return out
+
+
+def dump_ruleset(ruleset):
+    return [(r.name, r.category, r.cutoff, r.neighbourhood) for r in ruleset.rules]
+
+
+def gen_requests(rng, env, dyadic):
+    """ 2-5 different selections; some repeated (same set of names in another order = the same cache key or not, as the
+        tuple of the set decides), a rare invalid multiplier """
+    pool = DYADIC if dyadic else DYADIC + FREE + FREE
+    requests = []
+    for _ in range(rng.choice([2, 3, 3, 4, 5])):
+        if requests and rng.random() < 0.2:
+            req = dict(rng.choice(requests))
+            req["names"] = rng.sample(req["names"], len(req["names"]))
+            requests.append(req)
+            continue
+        names, cats = [], []
+        shape = rng.random()
+        if shape < 0.55:
+            names = rng.sample(env.firing, rng.choice([1, 1, 2, 3, 5])) + rng.sample(env.names, rng.choice([0, 0, 1, 3]))
+            names = list(dict.fromkeys(names))
+            if rng.random() < 0.05:
+                names.append("no-such-rule")
+        if 0.45 < shape < 0.8:
+            cats = rng.sample(env.cats, rng.choice([1, 1, 2]))
+        mults = None
+        if rng.random() < 0.6:
+            mults = (rng.choice(pool), rng.choice(pool))
+            if rng.random() < 0.06:
+                mults = (rng.choice([0.0, -1.0]), mults[1]) if rng.random() < 0.5 else (mults[0], 0.0)
+        requests.append({"strictness": rng.choice(STRICTNESS + ["relaxed"]), "names": names, "cats": cats,
+                         "taxon": "fungi" if rng.random() < 0.85 else "bacteria", "mults": mults})
+    return requests
+
+
+def gen_hit_record(rng, env):
+    """ linear record, single-exon genes that do not overlap, gaps around the scaled cutoffs of the shipped rules """
+    genes, hits = [], {}
+    pos = rng.choice([0, 1000, 12000])
+    for i in range(rng.choice([8, 12, 16])):
+        size = rng.choice([600, 1500, 3000])
+        genes.append((f"g{i}", pos, pos + size, rng.choice([1, -1])))
+        profs = rng.choice(env.pool)
+        if profs:
+            hits[f"g{i}"] = profs
+        pos += size + rng.choice([200, 500, 2000, 4999, 5000, 7500, 9999, 10000, 10001, 15000, 20000, 25001, 30000, 45000])
+    return pos + 60000, genes, hits
+
+
+def detect_real(env, length, genes, hits, ruleset):
+    """ detect_protoclusters_and_signatures with the given (real) ruleset; the HMMer search is replaced by canned hits """
+    from unittest.mock import patch
+    from antismash.common.hmm_rule_parser.structures import HMMerHit
+
+    def canned(_record, _signatures, _database, _groups):
+        return {name: [HMMerHit(name, prof, 0, 100, 10, 1e-30, 300.) for prof in profs] for name, profs in hits.items()}
+    record = detect_util.make_record(length, False, gene_locations(genes))
+    with patch.object(env.cp, "find_hmmer_hits", side_effect=canned):
+        result = env.cp.detect_protoclusters_and_signatures(record, ruleset)
+    parts = detect_util.loc_parts
+    return sorted((p.product, tuple(parts(p.core_location)), tuple(parts(p.location))) for p in result.protoclusters)
+
+
+def selection_case(env, length, genes, hits, ruleset, solo_cache):
+    """ the clusters of every rule of the ruleset run ALONE (the same rule object in a ruleset of its own) and the flat
+        case for the Coq removal of the clusters covered by a superior's cluster -> (flat | None, clusters, names) """
+    from antismash.common.hmm_rule_parser.test.helpers import create_ruleset
+    hit_profiles = {p for profs in hits.values() for p in profs} | set(ruleset.dynamic_profiles)
+    rules = list(ruleset.rules)
+    index = {rule.name: i for i, rule in enumerate(rules)}
+    clusters = []
+    for rule in rules:
+        if not env.profiles[rule.name] & hit_profiles:
+            continue        # the conditions of every shipped rule need a hit (contains_positive_condition)
+        key = (rule.name, rule.cutoff, rule.neighbourhood)
+        if key not in solo_cache:
+            solo = create_ruleset([rule], hmm_profiles=ruleset.hmm_profiles, dynamic_profiles=ruleset.dynamic_profiles,
+                                  equivalence_groups=ruleset.get_equivalence_groups(),
+                                  categories=ruleset.valid_categories)
+            solo_cache[key] = detect_real(env, length, genes, hits, solo)
+        clusters.extend(solo_cache[key])
+    flat = [PROP, 2, len(rules)]
+    for rule in rules:
+        sups = [index[name] for name in rule.superiors if name in index]
+        flat += [index[rule.name], len(sups)] + sups
+    flat.append(len(clusters))
+    for product, core, _ in clusters:
+        inside = [i for i, (_, s, e, _) in enumerate(genes) if any(ps <= s and e <= pe for ps, pe in core)]
+        if len(core) != 1 or not inside:
+            return None, clusters, [rule.name for rule in rules]
+        flat += [index[product]] + enc_parts(core) + [inside[0], inside[-1]]
+    return flat, clusters, [rule.name for rule in rules]
+
+
+def run_history(env, requests, on_call=None):
+    """ the calls of one history on the real code, the cache emptied first.  After EVERY call: the state of every
+        ruleset handed out so far.  -> per call: list of observations (one per call so far), and the objects """
+    env.hd._RULESETS.clear()  # pylint: disable=protected-access
+    handed, serial, snapshots, flat_requests = [], {}, [], []
+    for req in requests:
+        options = env.options(req)
+        flat_requests.append(env.flat_request(req, options))
+        try:
+            ruleset = env.hd.get_ruleset(options)
+            serial.setdefault(id(ruleset), len(serial))
+            handed.append(ruleset)
+        except Exception as exc:  # pylint: disable=broad-except
+            handed.append(exc)
+        if on_call:
+            on_call(len(handed) - 1, handed[-1])
+        snapshots.append([("error", err_code(r)) if isinstance(r, Exception) else
+                          (serial[id(r)], (r.multipliers.cutoff, r.multipliers.neighbourhood), dump_ruleset(r))
+                          for r in handed])
+    return snapshots, flat_requests, handed
+
+
+def encode_snapshot(env, snapshot):
+    out = [len(snapshot)]
+    for entry in snapshot:
+        if entry[0] == "error":
+            out += [1, entry[1]]
+            continue
+        out += [0, entry[0], len(entry[2])]
+        for name, cat, cutoff, nb in entry[2]:
+            out += [env.name_id.get(name, -1), env.cat_id.get(cat, -1), cutoff, nb]
+    return out
+
+
+def ruleset_histories(chk, rng, quick):
+    """ family (C) """
+    env = RulesetEnv()
+    if not env.parse_agrees:
+        chk.violation("broken-correspondence", "the rule files read as text and create_rules() disagree on the names, "
+                      "categories or written distances of the rules", {"theorem_or_correspondence": "read_rule_files / create_rules"})
+        return
+    flat_files = env.flat_files()
+    cases, impl_outs, meta = [], [], []
+    solo_cases, solo_meta = [], []
+    kept_alive = []
+    violations = 0
+    for number in range(14 if quick else 220):
+        dyadic = number % 4 != 3
+        requests = gen_requests(rng, env, dyadic)
+        length, genes, hits = gen_hit_record(rng, env)
+        detections = []
+
+        # the history: the generated selections, and for one or two of them the unrestricted ruleset of the same
+        # strictness and multipliers (a further call of the same history), on which detection is compared
+        history = []
+        chosen = set(rng.sample(range(len(requests)), min(len(requests), 1 if quick else 2)))
+        for i, req in enumerate(requests):
+            history.append(req)
+            if i in chosen and (req["names"] or req["cats"]):
+                history.append(dict(req, names=[], cats=[]))
+                detections.append((len(history) - 2, len(history) - 1))
+        snapshots, flat_requests, handed = run_history(env, history)
+        kept_alive.append((history, handed))
+        chk.count("ruleset_histories")
+        chk.count("get_ruleset_calls", len(history))
+        info = {"requests": history, "record": {"length": length, "genes": genes, "hits": {g: list(p) for g, p in hits.items()}}}
+
+        # (1) the oracle, after every call, for every ruleset handed out so far
+        bad = None
+        for upto, snapshot in enumerate(snapshots):
+            for i, entry in enumerate(snapshot):
+                req = history[i]
+                cutoff, neighbourhood = env.effective(req)
+                if entry[0] == "error":
+                    if cutoff > 0 and neighbourhood > 0:
+                        bad = (i, upto, f"call {i} raised error code {entry[1]}", None)
+                elif cutoff <= 0 or neighbourhood <= 0:
+                    bad = (i, upto, f"call {i} returned a ruleset for a non-positive multiplier", None)
+                elif entry[2] != env.expected(req) or entry[1] != (cutoff, neighbourhood):
+                    want = env.expected(req)
+                    diff = [(a, b) for a, b in zip(entry[2], want) if a != b][:4]
+                    bad = (i, upto, f"the ruleset handed out by call {i} does not hold the selected rules with written "
+                                    f"distance * multiplier after call {upto}", diff or (len(entry[2]), len(want)))
+                if bad:
+                    break
+            if bad:
+                break
+        if bad:
+            violations += 1
+            if violations <= 2:
+                chk.violation("counterexample", "get_ruleset depends on the history of calls: " + bad[2],
+                              {"theorem_or_correspondence": "C07_get_ruleset_history_independent / hmm_detection.get_ruleset",
+                               "input": info, "call": bad[0], "after_call": bad[1],
+                               "first_differences_(have, want)": bad[3]})
+            continue
+        nontrivial = any(req["taxon"] == "fungi" and env.effective(req) != (1.0, 1.0) for req in history)
+        # (2) the Coq model of get_ruleset on every prefix of the history
+        if dyadic:
+            for upto, snapshot in enumerate(snapshots):
+                flat = [PROP, 3] + flat_files + [upto + 1]
+                for fr in flat_requests[:upto + 1]:
+                    flat += fr
+                cases.append(flat)
+                impl_outs.append(encode_snapshot(env, snapshot))
+                meta.append(dict(info, calls=upto + 1))
+                chk.note_case(flat, nontrivial, {"requests": history, "calls": upto + 1} if len(chk.samples) < 1 else None)
+        else:
+            chk.count("histories_with_non_dyadic_multipliers_oracle_only")
+            chk.evaluations += len(snapshots)
+        # (3) detection: sub-selection vs each rule alone minus the sanctioned removal
+        solo_cache = {}
+        for sub_at, full_at in detections:
+            for at in (sub_at, full_at):
+                ruleset = handed[at]
+                if isinstance(ruleset, Exception) or not ruleset.rules:
+                    continue
+                try:
+                    found = detect_real(env, length, genes, hits, ruleset)
+                    flat, clusters, names = selection_case(env, length, genes, hits, ruleset, solo_cache)
+                except Exception as exc:  # pylint: disable=broad-except
+                    chk.violation("broken-correspondence", f"detection with a get_ruleset() ruleset raised {type(exc).__name__}: {exc}",
+                                  {"theorem_or_correspondence": "detect_protoclusters_and_signatures", "input": info, "call": at})
+                    continue
+                if flat is None:
+                    chk.count("selection_not_encodable")
+                    continue
+                solo_cases.append(flat)
+                solo_meta.append(dict(info, call=at, clusters_of_rules_run_alone=clusters, full_run=found, names=names))
+                chk.note_case(flat, len(clusters) > 0)
+                chk.count("selection_detection_runs")
+    # every ruleset of every earlier history must still be what it was when handed out
+    for history, handed in kept_alive:
+        for req, ruleset in zip(history, handed):
+            if not isinstance(ruleset, Exception) and dump_ruleset(ruleset) != env.expected(req) and violations == 0:
+                violations += 1
+                chk.violation("counterexample", "a ruleset handed out by get_ruleset was changed by later calls",
+                              {"theorem_or_correspondence": "C07_get_ruleset_history_independent / hmm_detection.get_ruleset",
+                               "input": {"requests": history}, "request": req, "now": dump_ruleset(ruleset)[:5]})
+    if [(r.name, r.category, r.cutoff, r.neighbourhood) for r in env.fresh_parse()] != [r for rules in env.files for r in rules]:
+        chk.violation("broken-correspondence", "a fresh parse of the rule files no longer gives the written distances",
+                      {"theorem_or_correspondence": "create_rules"})
+    model_outs = common.run_driver(cases)
+    chk.crosscheck_vm(cases, model_outs, k=4 if quick else 20)
+    differing = [i for i, (m, o) in enumerate(zip(model_outs, impl_outs)) if m != o]
+    chk.extra["get_ruleset_model_disagreements"] = len(differing)
+    if differing:
+        i = min(differing, key=lambda j: len(cases[j]))
+        chk.violation("broken-correspondence", f"get_ruleset and its Coq model differ on {len(differing)} histories",
+                      {"theorem_or_correspondence": "Model.get_ruleset / hmm_detection.get_ruleset", "input": meta[i],
+                       "implementation": impl_outs[i][:60], "model": model_outs[i][:60]})
+    kept_outs = common.run_driver(solo_cases)
+    chk.crosscheck_vm(solo_cases, kept_outs, k=10 if quick else 60)
+    mismatches = 0
+    for flat, model, info in zip(solo_cases, kept_outs, solo_meta):
+        kept = sorted(decode_kept(model, info["names"]))
+        full_of = {(p, core): full for p, core, full in info["clusters_of_rules_run_alone"]}
+        want = sorted((p, core, full_of[(p, core)]) for p, core in kept)
+        chk.count("selection_clusters_removed_as_covered", len(info["clusters_of_rules_run_alone"]) - len(kept))
+        if want != info["full_run"]:
+            mismatches += 1
+            if mismatches <= 2:
+                chk.violation("counterexample", "the protoclusters found with a ruleset of get_ruleset() are not those of each of "
+                              "its rules run alone minus the ones covered by a cluster of a superior rule in the ruleset",
+                              {"theorem_or_correspondence": "C07_selection_then_detection, C07_redundancy_spec / "
+                                                            "get_ruleset + detect_protoclusters_and_signatures",
+                               "input": info, "expected_by_specification": want, "implementation": info["full_run"], "flat": flat})
+    chk.extra["selection_detection_mismatches"] = mismatches
+
+
+def replay_history(info, doc):
+    env = RulesetEnv()
+    snapshots, _, _ = run_history(env, info["requests"])
+    for upto, snapshot in enumerate(snapshots):
+        for i, entry in enumerate(snapshot):
+            want = env.expected(info["requests"][i])
+            if entry[0] != "error" and entry[2] != want:
+                diff = [(a, b) for a, b in zip(entry[2], want) if a != b][:5]
+                print(f"after call {upto}: ruleset of call {i} ({info['requests'][i]}) differs from written distance * multiplier: "
+                      f"(have, want) {diff}")
+    print("recorded:", doc.get("what"), doc.get("first_differences_(have, want)"))
+    return 0
+
+
+# ------------------------------------------------------------------ (D) the Ruleset constructors used directly
+
+def gen_api_ops(rng, env):
+    """ Ruleset.from_files(multipliers=...) and copies of earlier rulesets with other rules / multipliers """
+    def mults():
+        return (rng.choice(DYADIC), rng.choice(DYADIC)) if rng.random() < 0.8 else (1.0, 1.0)
+    ops = [("from_files", rng.choice(STRICTNESS), mults())]
+    for _ in range(rng.choice([1, 2, 3])):
+        if rng.random() < 0.75:
+            names = []
+            if rng.random() < 0.7:
+                names = list(dict.fromkeys(rng.sample(env.firing, rng.choice([1, 2, 4])) + rng.sample(env.names, rng.choice([0, 2]))))
+            ops.append(("copy", rng.randrange(len(ops)), names, rng.random() < 0.4, mults()))
+        else:
+            ops.append(("from_files", rng.choice(STRICTNESS), mults()))
+    return ops
+
+
+def run_api_ops(env, ops):
+    """ -> the rulesets made, and for each what it should hold: (strictness, names or None, multipliers) """
+    from antismash.common.hmm_rule_parser.cluster_prediction import Ruleset
+    from antismash.common.hmm_rule_parser.structures import Multipliers
+    hd = env.hd
+    made, wanted = [], []
+    for op in ops:
+        if op[0] == "from_files":
+            made.append(Ruleset.from_files(hd.SIGNATURE_FILE, hd.HMM_FILE,
+                                           hd._get_rule_files_for_strictness(op[1]),  # pylint: disable=protected-access
+                                           hd.CATEGORIES, hd.EQUIVALENCE_GROUPS, "rule-based-clusters",
+                                           dynamic_profiles=hd.DYNAMIC_PROFILES, multipliers=Multipliers(*op[2])))
+            wanted.append((op[1], None, op[2]))
+        else:
+            _, j, names, keep, mults = op
+            source = made[j]
+            kwargs = {"rules": [r for r in source.rules if not names or r.name in names]}
+            if not keep:
+                kwargs["multipliers"] = Multipliers(*mults)
+            made.append(source.copy_with_replacements(**kwargs))
+            strictness, earlier, source_mults = wanted[j]
+            selected = earlier if not names else [n for n in (earlier if earlier is not None else env.names) if n in names]
+            wanted.append((strictness, selected, source_mults if keep else mults))
+    return made, wanted
+
+
+def ruleset_constructors(chk, rng, quick):
+    """ family (D): the model of from_files / copy_with_replacements against the real constructors; what they return is
+        compared with written distance * multipliers too, and a difference is attributed to the recorded class
+        ruleset_copy_rescales_shared_rules only while that class is listed AND the faithful model predicts it """
+    env = RulesetEnv()
+    listed = any(f["status"] == "known" and f["class"] == "ruleset_copy_rescales_shared_rules"
+                 for f in common.load_known_findings("C07"))
+    flat_files = env.flat_files()
+    cases, impl_outs, meta, off_spec = [], [], [], []
+    for _ in range(8 if quick else 80):
+        ops = gen_api_ops(rng, env)
+        try:
+            made, wanted = run_api_ops(env, ops)
+        except Exception as exc:  # pylint: disable=broad-except
+            chk.violation("broken-correspondence", f"a Ruleset constructor raised {type(exc).__name__}: {exc}",
+                          {"theorem_or_correspondence": "Ruleset.from_files / copy_with_replacements", "input": {"ops": ops}})
+            continue
+        flat = [PROP, 4] + flat_files + [len(ops)]
+        for op in ops:
+            if op[0] == "from_files":
+                flat += [0, STRICTNESS.index(op[1])]
+                mults = op[2]
+            else:
+                flat += [1, op[1], len(op[2])] + [env.name_id[n] for n in op[2]] + [1 if op[3] else 0]
+                mults = op[4]
+            for value in mults:
+                flat += list(float(value).as_integer_ratio())
+        out = [len(made)]
+        wrong = None
+        for i, (ruleset, (strictness, names, mults)) in enumerate(zip(made, wanted)):
+            out.append(0)
+            for value in (ruleset.multipliers.cutoff, ruleset.multipliers.neighbourhood):
+                out += list(float(value).as_integer_ratio())
+            rules = dump_ruleset(ruleset)
+            out.append(len(rules))
+            for name, cat, cutoff, nb in rules:
+                out += [env.name_id[name], env.cat_id[cat], cutoff, nb]
+            want = [(n, c, int(d * mults[0]), int(b * mults[1])) for n, c, d, b in env.base_rules(strictness)
+                    if names is None or n in names]
+            if rules != want and wrong is None:
+                wrong = (i, [(a, b) for a, b in zip(rules, want) if a != b][:3])
+        cases.append(flat)
+        impl_outs.append(out)
+        meta.append({"ops": ops})
+        off_spec.append(wrong)
+        chk.note_case(flat, True)
+        chk.count("constructor_sequences")
+    model_outs = common.run_driver(cases)
+    chk.crosscheck_vm(cases, model_outs, k=3 if quick else 12)
+    reported = False
+    for flat, model, got, info, wrong in zip(cases, model_outs, impl_outs, meta, off_spec):
+        if model != got:
+            if not reported:
+                chk.violation("counterexample" if wrong else "broken-correspondence",
+                              "Ruleset.from_files / copy_with_replacements and their Coq model differ",
+                              {"theorem_or_correspondence": "Model.from_files, Model.copy_with_replacements / Ruleset",
+                               "input": info, "implementation": got[:40], "model": model[:40],
+                               "first_differences_from_written_distance_times_multiplier": wrong})
+                reported = True
+        elif wrong:
+            if listed:
+                chk.count("known_class_ruleset_copy_rescales_shared_rules")
+            elif not reported:
+                chk.violation("counterexample", f"ruleset {wrong[0]} of a sequence of Ruleset constructor calls does not hold the "
+                              "written distances times its multipliers",
+                              {"theorem_or_correspondence": "C07_ruleset_copy_history_refuted, C07_from_files_multipliers_refuted / "
+                                                            "Ruleset.from_files, copy_with_replacements",
+                               "input": info, "first_differences_(have, want)": wrong[1]})
+                reported = True
+
+
+def ruleset_copy_witness_reproduces(witness):
+    """ the witness of C07-K2: a copy of the fungal ruleset changes the distances of the ruleset it was copied from """
+    env = RulesetEnv()
+    env.hd._RULESETS.clear()  # pylint: disable=protected-access
+    try:
+        request = {"strictness": witness["strictness"], "names": [], "cats": [], "taxon": witness["taxon"], "mults": None}
+        ruleset = env.hd.get_ruleset(env.options(request))
+        rule = ruleset.get_rule_by_name(witness["rule"])
+        before = (rule.cutoff, rule.neighbourhood)
+        ruleset.copy_with_replacements(rules=[rule])
+        after = (ruleset.get_rule_by_name(witness["rule"]).cutoff, ruleset.get_rule_by_name(witness["rule"]).neighbourhood)
+        return list(before) == witness["before_copy"] and list(after) == witness["after_copy"]
+    except Exception:  # pylint: disable=broad-except
+        return False
+    finally:
+        env.hd._RULESETS.clear()  # pylint: disable=protected-access
+
+
 # ------------------------------------------------------------------ the run
 
 def run(chk):
@@ -303,6 +994,10 @@ def run(chk):
         return chk.finish(RULE)
     rng = chk.rng
     quick = chk.tier == "quick"
+
+    # ---- (C) histories of get_ruleset (first: the rule files are read before any ruleset is built)
+    ruleset_histories(chk, rng, quick)
+    ruleset_constructors(chk, rng, quick)
 
     # ---- (A) rule order, sub-selection and the sanctioned removal of covered clusters
     solo_cases, solo_meta = [], []
@@ -347,7 +1042,7 @@ def run(chk):
     chk.count("clusters_removed_as_covered_by_superior", removed_total)
 
     # ---- (B) rotation (and the rule order of these records)
-    cases, impl_outs, meta = [], [], []
+    store = ([], [], [])
     corpus = list(ROTATION_CORPUS)
     for _ in range(450 if quick else 7000):
         forced = None
@@ -386,28 +1081,40 @@ def run(chk):
         if forced is not None:
             ks = [forced] + [k for k in ks if k != forced]
         for k in ks[:6]:
-            rotated = rotate_genes(genes, length, k)
-            try:
-                out = run_pipeline(length, rotated, rules, hits, areas=True)
-                out = (out[0], out[2], out[3], out[4])
-            except Exception as exc:  # pylint: disable=broad-except
-                out = ("error", type(exc).__name__, str(exc))
-            locs = []
-            for _, core, full in base:
-                locs += [core, full]
-            locs += [c[2] for c in cands] + [r[1] for r in regions]
-            for region in regions:
-                locs += list(region[3])
-            flat = [PROP, 1, length, k, len(locs)]
-            for loc in locs:
-                flat += enc_parts(loc)
-            cases.append(flat)
-            impl_outs.append(out)
-            meta.append({"length": length, "genes": genes, "hits": {g: sorted(v) for g, v in hits.items()}, "rules": rules,
-                         "rotation": k, "base": base, "base_members": members, "base_candidates": cands,
-                         "base_regions": regions})
-            chk.count("rotations")
-            chk.note_case(flat, nontrivial, meta[-1] if len(chk.samples) < 4 else None)
+            rotation_case(chk, store, length, genes, rotate_genes(genes, length, k), rules, hits, k,
+                          (base, members, cands, regions), nontrivial, False)
+
+    # ---- (B2) rotation through spliced genes: multi-exon core genes on both strands, the new origin inside an exon
+    # (one side of the origin then holds two or more parts of the gene), on an exon boundary or in an intron
+    for _ in range(200 if quick else 2500):
+        length, genes, rules, hits = gen_spliced_record(rng)
+        try:
+            base, _, members, cands, regions = run_pipeline(length, rotate_spliced(genes, length, 0), rules, hits, areas=True)
+        except Exception as exc:  # pylint: disable=broad-except
+            chk.count("base_error_" + type(exc).__name__)
+            continue
+        chk.count("spliced_records")
+        # origins inside the exons of spliced CORE genes first (both strands), then exon boundaries, introns and the
+        # exons of the other spliced genes
+        core_genes = {name for _, _, inner, _ in members for name in inner}
+        first, others = [], []
+        for name, parts, strand in genes:
+            if len(parts) < 2:
+                continue
+            for s, e in parts:
+                (first if name in core_genes else others).append(((-(s + rng.randrange(1, e - s))) % length,
+                                                                  f"origin_in_exon_strand_{strand}"))
+            others.append(((-rng.choice(parts)[0]) % length, "origin_on_exon_boundary"))
+            others.append(((-(parts[0][1] + 5)) % length, "origin_in_intron"))
+        rng.shuffle(first)
+        rng.shuffle(others)
+        ks = first[:4] + others[:2]
+        for k, kind in ks:
+            chk.count("spliced_" + kind)
+            rotation_case(chk, store, length, genes, rotate_spliced(genes, length, k), rules, hits, k,
+                          (base, members, cands, regions), len(base) > 0, True)
+
+    cases, impl_outs, meta = store
     # expected image of every base area under each rotation, from the Coq model
     model_outs = common.run_driver(cases)
     chk.crosscheck_vm(cases, model_outs, k=100 if quick else 600)
@@ -422,6 +1129,9 @@ def run(chk):
         else:
             have = tuple(sorted(x) for x in got)
         if tuple(expected) != have:
+            if info.get("spliced") and attributable_to_gene_lookup(info):
+                chk.count("known_class_gene_lookup_F13")
+                continue
             mismatches += 1
             if mismatches <= 3:
                 level = next((name for name, w, h in zip(("protoclusters", "protocluster members", "candidate clusters",
@@ -438,7 +1148,12 @@ def run(chk):
     return chk.finish(RULE, trusted_extra=["the rotation of the gene coordinates is done by the harness (rotate_genes); the expected "
                                            "image of the areas is computed by the Coq model of offset_location",
                                            "the positions of the first/last core CDS handed to the Coq removal are computed by "
-                                           "the harness from the gene list (genes of these records do not overlap)"])
+                                           "the harness from the gene list (genes of these records do not overlap)",
+                                           "get_ruleset histories: the written distances come from the harness' own reading of the "
+                                           "rule files as text (cross-checked against create_rules); the HMMer search is replaced "
+                                           "by canned hits; multipliers travel to the model as float.as_integer_ratio()",
+                                           "attribution of spliced-gene rotation differences to C08 F13a/F13b uses a harness-side "
+                                           "specification of Record.get_cds_features_within_location (full scan)"])
 
 
 def known_findings(chk):
@@ -447,10 +1162,13 @@ def known_findings(chk):
         if finding["status"] != "known":
             continue
         w = finding["witness"]
-        genes = [tuple(g) for g in w["genes"]]
-        hits = {k: set(v) for k, v in w["hits"].items()}
-        rotated = rotate_genes(genes, w["length"], w["rotation"])
+        if finding["class"] == "ruleset_copy_rescales_shared_rules":
+            if ruleset_copy_witness_reproduces(w):
+                chk.known(finding["what_fails"])
         if finding["class"] == "rotation_superior_partial_overlap":
+            genes = [tuple(g) for g in w["genes"]]
+            hits = {k: set(v) for k, v in w["hits"].items()}
+            rotated = rotate_genes(genes, w["length"], w["rotation"])
             try:
                 base, _ = run_pipeline(w["length"], genes, w["rules"], hits)
                 got, _ = run_pipeline(w["length"], rotated, w["rules"], hits)
@@ -498,10 +1216,27 @@ def replay(chk, path):
     import json
     doc = json.load(open(path))
     info = doc["input"]
+    if "requests" in info:
+        return replay_history(info, doc)
+    if "ops" in info:
+        env = RulesetEnv()
+        made, wanted = run_api_ops(env, [tuple(op) for op in info["ops"]])
+        for i, (ruleset, (strictness, names, mults)) in enumerate(zip(made, wanted)):
+            want = [(n, c, int(d * mults[0]), int(b * mults[1])) for n, c, d, b in env.base_rules(strictness)
+                    if names is None or n in names]
+            diff = [(a, b) for a, b in zip(dump_ruleset(ruleset), want) if a != b][:4]
+            print(f"ruleset {i} ({info['ops'][i]}):", "holds written distance * multiplier" if not diff else
+                  f"(have, want) {diff}")
+        return 0
     genes = [tuple(g) for g in info["genes"]]
     hits = {k: set(v) for k, v in info["hits"].items()}
     if "rotation" in info:
-        rotated = rotate_genes(genes, info["length"], info["rotation"])
+        if info.get("spliced"):
+            spliced = [(n, [tuple(p) for p in parts], st) for n, parts, st in info["genes"]]
+            rotated = rotate_spliced(spliced, info["length"], info["rotation"])
+            print("genes of the rotated record:", rotated)
+        else:
+            rotated = rotate_genes(genes, info["length"], info["rotation"])
         try:
             print("implementation on rotated record:", run_pipeline(info["length"], rotated, info["rules"], hits, areas=True))
         except Exception as exc:  # pylint: disable=broad-except
